@@ -17,6 +17,7 @@ package scorch
 import (
 	"context"
 	"fmt"
+	"math"
 	"reflect"
 	"sync/atomic"
 
@@ -190,6 +191,14 @@ func (i *IndexSnapshotTermFieldReader) Advance(ID index.IndexInternalID, preAllo
 	if segIndex >= len(i.snapshot.segment) {
 		return nil, fmt.Errorf("computed segment index %d out of bounds %d",
 			segIndex, len(i.snapshot.segment))
+	}
+	if ldocNum > math.MaxUint32 {
+		// doc numbers within a segment fit in 32 bits, and the postings
+		// iterators truncate their target to uint32: such a target would wrap
+		// around and land before it. Nothing in this segment is at or after
+		// the target, so continue with the next segment.
+		i.segmentOffset = segIndex + 1
+		return i.Next(preAlloced)
 	}
 	// skip directly to the target segment
 	i.segmentOffset = segIndex
